@@ -143,7 +143,7 @@ def _worker(job):
         setup, work = G.gen_fault_case(rng, prof)
         try:
             ref = G.fault_case(setup, work, ("dml", 10 ** 9))
-        except RuntimeError:
+        except Exception:  # noqa: BLE001 - the failure-free run itself fails: a case for C30, not for this part
             continue
         nd = ref["ref_ndml"]
         faults = []
